@@ -557,4 +557,37 @@ def c16(ctx):
                       'update_entries_for_directory and load_unregistered_manifests under a 20 s watchdog.')
 
 
-CHECKS = {'C16': c16, 'C15': c15, 'C14': c14, 'C05': c05, 'C11': c11, 'C03': c03, 'C10': c10, 'C12': c12, 'C13': c13, 'C01': c01, 'C02': c02, 'C04': c04, 'C07': c07, 'C08': c08, 'C09': c09}
+def c06(ctx):
+    from . import drv_fault as d
+    thorough = ctx.tier == 'thorough'
+    ctx.mc('Faults', 'MC_Faults.cfg')
+    ctx.mc('Faults', 'MC_Faults_eloop.cfg', expect_violation='NeverAbsent', coverage=False)
+    n = 400 if thorough else 48
+    opt = {'all_errnos': thorough, 'all_calls': thorough}
+    out = core.pool_map(d.one_tree, [(ctx.seed, i, opt) for i in range(n)], chunksize=1)
+    recs = [r for o in out for r in o]
+    metas = [r.pop('meta') for r in recs]
+    if any(not r['transparent'] for r in recs):
+        raise tlc.MachineryError('interposer is not transparent (clean run differs with the layer installed)')
+    for k in range(0, len(recs), 100000):
+        ctx.judge('TraceFault', 'TraceFault.cfg', recs[k:k + 100000], metas[k:k + 100000], {'module': 'TraceFault'},
+                  sig=lambda r: hash((r['op'], r['func'], r['errno'], r['obs'], r['clean'], r['k'] * 1000 + r['ncalls'])))
+    by = {}
+    for r in recs:
+        key = '%s %s -> %s' % (r['op'], r['func'], r['obs'].split(':')[0])
+        by[key] = by.get(key, 0) + 1
+    ctx.extra['by_call'] = by
+    ctx.extra['trees'] = n
+    ctx.extra['not_fired'] = sum(1 for r in recs if not r['fired'])
+    ctx.sample({'record': {k: recs[10][k] for k in ('op', 'func', 'errno', 'k', 'ncalls', 'clean', 'obs')}, 'meta': metas[10]})
+    ctx.assumptions += ['faults are injected at the Python-visible call boundary (os.open/stat/fstat/scandir(+first iteration)/'
+                        'builtins.open/first read of each opened object); errors inside C-level DirEntry methods are out of reach',
+                        'ENOENT and the documented ENXIO/EOPNOTSUPP cases are not injected']
+    return ctx.finish(level='fault_enumeration' if False else 'model_checking',
+                      rule='Faults.tla: the error-handling table (role x call x errno) by TLC; real code: per generated tree '
+                      '(consistent / with an unlisted file / with an altered file) the clean call sequence of verify and of the '
+                      'scan phase of update is recorded, then re-run once per (call index, errno) with that call raising; '
+                      'judged by TraceFault.tla (never success; update wrote nothing).')
+
+
+CHECKS = {'C06': c06, 'C16': c16, 'C15': c15, 'C14': c14, 'C05': c05, 'C11': c11, 'C03': c03, 'C10': c10, 'C12': c12, 'C13': c13, 'C01': c01, 'C02': c02, 'C04': c04, 'C07': c07, 'C08': c08, 'C09': c09}
